@@ -122,6 +122,18 @@ Definition mon_C15 (g : graph) (t : tok) : bool :=
     | None => true
     end).
 
+(* delete.go / builder.go WithCustomDelete: what the delete consumer puts in place of the stored object — the fixed marker, or the
+   (scripted) custom delete function's result *)
+Definition scrub_obj (c : econfig) (o : obj) : obj :=
+  if ec_del c =? 0 then ODeleted else match o with OVal seed _ => OVal seed [] | ODeleted => ODeleted end.
+(* C15: whatever becomes DataDeleted holds the scrub of the object that was stored *)
+Definition mon_C15_obj (c : econfig) (t : tok) : bool :=
+  on_store t (fun prev r =>
+    match prev with
+    | Some p => implb (rs_eqb (r_state r) RSDataDeleted) (obj_eqb (r_obj r) (scrub_obj c (r_obj p)))
+    | None => true
+    end).
+
 Definition mon_C04 (g : graph) (t : tok) : bool :=
   on_step_call t (fun view pers => match pers with Some p => r_ver view =? r_ver p | None => false end).
 
